@@ -4,7 +4,7 @@
 
 use crate::common::*;
 use assets_manager::{AtomicReloadId, ReloadId};
-use std::sync::{Arc, Barrier};
+use std::sync::{atomic::{AtomicUsize, Ordering}, Arc};
 
 #[derive(Default)]
 pub struct RidEngine;
@@ -48,8 +48,8 @@ impl Engine for RidEngine {
                 let pool: Vec<usize> = if rng.chance(1, 2) { vec![1, 2, 3] } else { VALS.to_vec() };
                 let init = *rng.pick(&pool);
                 let vs: Vec<String> = (0..k).map(|_| rng.pick(&pool).to_string()).collect();
-                let reps = if tier == Tier::Thorough { 40 } else { 10 };
-                for _ in 0..reps { l.push(format!("at.conc-run {init} {}", vs.join(" "))); }
+                let reps = if tier == Tier::Thorough { 20000 } else { 3000 };
+                l.push(format!("at.conc-run {reps} {init} {}", vs.join(" ")));
             }
             _ => {
                 let n = rng.range(5, 40);
@@ -82,8 +82,8 @@ impl Engine for RidEngine {
                     rec.op(line.clone(), format!("{told} {}", id.verif_raw()));
                     rec.stat(if told { "rid.update/true" } else { "rid.update/false" });
                     let exp_told = n > o_id; o_id = o_id.max(n);
-                    if told != exp_told || id.verif_raw() != o_id { rec.oracle_fail(format!("ReloadId::update({n}): told={told} stored={} expected told={exp_told} stored={o_id}", id.verif_raw())); }
-                    if ReloadId::NEVER > id { rec.oracle_fail("NEVER is not the least id".to_string()); }
+                    if told != exp_told || id.verif_raw() != o_id { rec.oracle_fail(format!("rid-update-not-max ReloadId::update({n}): told={told} stored={} expected told={exp_told} stored={o_id}", id.verif_raw())); }
+                    if ReloadId::NEVER > id { rec.oracle_fail("never-not-least NEVER is not the least id".to_string()); }
                 }
                 "at.new" => { at = AtomicReloadId::new(); o_at = 0; rec.op(line.clone(), at.load().verif_raw().to_string()) }
                 "at.with" => { at = AtomicReloadId::with_value(rid(arg(1))); o_at = arg(1); rec.op(line.clone(), at.load().verif_raw().to_string()) }
@@ -93,14 +93,14 @@ impl Engine for RidEngine {
                     rec.op(line.clone(), format!("{told} {}", at.load().verif_raw()));
                     rec.stat(if told { "at.update/true" } else { "at.update/false" });
                     let exp = n > o_at; o_at = o_at.max(n);
-                    if told != exp || at.load().verif_raw() != o_at { rec.oracle_fail(format!("AtomicReloadId::update({n}): told={told} stored={} expected told={exp} stored={o_at}", at.load().verif_raw())); }
+                    if told != exp || at.load().verif_raw() != o_at { rec.oracle_fail(format!("atomic-update-not-max AtomicReloadId::update({n}): told={told} stored={} expected told={exp} stored={o_at}", at.load().verif_raw())); }
                 }
                 "at.fetch_max" => {
                     let n = arg(1);
                     let p = at.fetch_max(rid(n)).verif_raw();
                     rec.op(line.clone(), format!("{p} {}", at.load().verif_raw()));
                     rec.stat("at.fetch_max");
-                    if p != o_at || at.load().verif_raw() != o_at.max(n) { rec.oracle_fail(format!("fetch_max({n}) prev={p} now={} expected prev={o_at} now={}", at.load().verif_raw(), o_at.max(n))); }
+                    if p != o_at || at.load().verif_raw() != o_at.max(n) { rec.oracle_fail(format!("atomic-op-wrong fetch_max({n}) prev={p} now={} expected prev={o_at} now={}", at.load().verif_raw(), o_at.max(n))); }
                     o_at = o_at.max(n);
                 }
                 "at.swap" => {
@@ -108,7 +108,7 @@ impl Engine for RidEngine {
                     let p = at.swap(rid(n)).verif_raw();
                     rec.op(line.clone(), format!("{p} {}", at.load().verif_raw()));
                     rec.stat("at.swap");
-                    if p != o_at || at.load().verif_raw() != n { rec.oracle_fail(format!("swap({n}) prev={p} now={}", at.load().verif_raw())); }
+                    if p != o_at || at.load().verif_raw() != n { rec.oracle_fail(format!("atomic-op-wrong swap({n}) prev={p} now={}", at.load().verif_raw())); }
                     o_at = n;
                 }
                 "at.store" => {
@@ -116,32 +116,56 @@ impl Engine for RidEngine {
                     at.store(rid(n));
                     rec.op(line.clone(), format!("- {}", at.load().verif_raw()));
                     rec.stat("at.store");
-                    if at.load().verif_raw() != n { rec.oracle_fail(format!("store({n}) now={}", at.load().verif_raw())); }
+                    if at.load().verif_raw() != n { rec.oracle_fail(format!("atomic-op-wrong store({n}) now={}", at.load().verif_raw())); }
                     o_at = n;
                 }
-                "at.load" => { let v = at.load().verif_raw(); rec.op(line.clone(), format!("{v} {v}")); if v != o_at { rec.oracle_fail(format!("load={v} expected {o_at}")); } }
+                "at.load" => { let v = at.load().verif_raw(); rec.op(line.clone(), format!("{v} {v}")); if v != o_at { rec.oracle_fail(format!("atomic-op-wrong load={v} expected {o_at}")); } }
                 "at.conc-run" => {
-                    let init = arg(1);
-                    let offered: Vec<usize> = (2..w.len()).map(arg).collect();
+                    // at.conc-run <reps> <init> <v1> .. <vk>: k pooled threads, `reps` rounds, every round
+                    // released by a spin barrier so that the update() calls really overlap.
+                    let reps = arg(1);
+                    let init = arg(2);
+                    let offered: Vec<usize> = (3..w.len()).map(arg).collect();
+                    let k = offered.len();
                     let cell = Arc::new(AtomicReloadId::with_value(rid(init)));
-                    let bar = Arc::new(Barrier::new(offered.len()));
-                    let hs: Vec<_> = offered.iter().map(|&v| {
-                        let (cell, bar) = (cell.clone(), bar.clone());
-                        std::thread::spawn(move || { bar.wait(); cell.update(rid(v)) })
+                    let gen = Arc::new(AtomicUsize::new(0));      // round number published by the coordinator
+                    let done = Arc::new(AtomicUsize::new(0));     // threads finished with the current round
+                    let told_bits = Arc::new(AtomicUsize::new(0));
+                    let hs: Vec<_> = offered.iter().enumerate().map(|(t, &v)| {
+                        let (cell, gen, done, told_bits) = (cell.clone(), gen.clone(), done.clone(), told_bits.clone());
+                        std::thread::spawn(move || {
+                            for round in 1..=reps {
+                                while gen.load(Ordering::Acquire) != round { std::hint::spin_loop(); }
+                                if cell.update(rid(v)) { told_bits.fetch_or(1 << t, Ordering::AcqRel); }
+                                done.fetch_add(1, Ordering::AcqRel);
+                            }
+                        })
                     }).collect();
-                    let told: Vec<bool> = hs.into_iter().map(|h| h.join().unwrap()).collect();
-                    let fin = cell.load().verif_raw();
-                    let obs: Vec<String> = offered.iter().zip(&told).map(|(v, t)| format!("{v} {t}")).collect();
-                    rec.op(format!("at.conc {init} {fin} {}", obs.join(" ")), "lin-ok");
-                    rec.stat(format!("at.conc/threads={}", offered.len()));
-                    // oracle straight from the statement
+                    let mut outcomes: std::collections::BTreeMap<(usize, usize), usize> = Default::default();
+                    for round in 1..=reps {
+                        cell.store(rid(init));
+                        told_bits.store(0, Ordering::Release);
+                        done.store(0, Ordering::Release);
+                        gen.store(round, Ordering::Release);
+                        while done.load(Ordering::Acquire) != k { std::hint::spin_loop(); }
+                        *outcomes.entry((cell.load().verif_raw(), told_bits.load(Ordering::Acquire))).or_insert(0) += 1;
+                    }
+                    for h in hs { h.join().unwrap(); }
                     let mx = offered.iter().copied().fold(init, usize::max);
-                    if fin != mx { rec.oracle_fail(format!("concurrent updates {offered:?} from {init}: final {fin} is not the maximum {mx}")); }
-                    let mut trues: Vec<usize> = offered.iter().zip(&told).filter(|(_, t)| **t).map(|(v, _)| *v).collect();
-                    trues.sort();
-                    if trues.windows(2).any(|p| p[0] == p[1]) { rec.oracle_fail(format!("one growth reported to two callers: offered {offered:?} told {told:?}")); }
-                    if trues.iter().any(|&v| v <= init) { rec.oracle_fail(format!("told true without growth: init {init} offered {offered:?} told {told:?}")); }
-                    if mx > init && !trues.contains(&mx) { rec.oracle_fail(format!("growth to {mx} reported to nobody: offered {offered:?} told {told:?}")); }
+                    rec.stat(format!("at.conc/threads={k}"));
+                    rec.stat(format!("at.conc/distinct-outcomes={}", outcomes.len().min(9)));
+                    for ((fin, bits), _count) in outcomes {
+                        let told: Vec<bool> = (0..k).map(|t| bits >> t & 1 == 1).collect();
+                        let obs: Vec<String> = offered.iter().zip(&told).map(|(v, t)| format!("{v} {t}")).collect();
+                        rec.op(format!("at.conc {init} {fin} {}", obs.join(" ")), "lin-ok");
+                        // oracle straight from the statement
+                        if fin != mx { rec.oracle_fail(format!("conc-final-not-max concurrent updates {offered:?} from {init}: final {fin} is not the maximum {mx}")); }
+                        let mut trues: Vec<usize> = offered.iter().zip(&told).filter(|(_, t)| **t).map(|(v, _)| *v).collect();
+                        trues.sort();
+                        if trues.windows(2).any(|p| p[0] == p[1]) { rec.oracle_fail(format!("conc-growth-told-twice one growth reported to two callers: init {init} offered {offered:?} told {told:?}")); }
+                        if trues.iter().any(|&v| v <= init) { rec.oracle_fail(format!("conc-told-without-growth init {init} offered {offered:?} told {told:?}")); }
+                        if mx > init && !trues.contains(&mx) { rec.oracle_fail(format!("conc-growth-lost growth to {mx} reported to nobody: init {init} offered {offered:?} told {told:?}")); }
+                    }
                 }
                 other => panic!("rid engine: unknown op {other}"),
             }
